@@ -69,12 +69,22 @@ SPEC = [
          params=[("drift_rate", "Q"), ("unit_drift_rate", "Q")], ret="Z"),
     dict(group="07", name="center_freq", file="setigen/voltage/backend.py", cls="RawVoltageBackend", func="_header_populate_configuration", what="assign:center_freq",
          params=[("fch1", "Q"), ("chan_bw", "Q"), ("start_chan", "Z"), ("num_chans", "Z")], ret="Q"),
+    dict(group="07", name="hdr_obsfreq", file="setigen/voltage/backend.py", cls="RawVoltageBackend", func="_header_populate_configuration", what="assign:header_dict['OBSFREQ']",
+         params=[("fch1", "Q"), ("chan_bw", "Q"), ("start_chan", "Z"), ("num_chans", "Z")], ret="Q"),      # local center_freq inlined
+    dict(group="07", name="hdr_chan_bw", file="setigen/voltage/backend.py", cls="RawVoltageBackend", func="_header_populate_configuration", what="assign:header_dict['CHAN_BW']",
+         params=[("chan_bw", "Q")], ret="Q"),
+    dict(group="07", name="hdr_obsbw", file="setigen/voltage/backend.py", cls="RawVoltageBackend", func="_header_populate_configuration", what="assign:header_dict['OBSBW']",
+         params=[("chan_bw", "Q"), ("num_chans", "Z")], ret="Q"),
+    dict(group="07", name="hdr_obsnchan", file="setigen/voltage/backend.py", cls="RawVoltageBackend", func="_header_populate_configuration", what="assign:header_dict['OBSNCHAN']",
+         params=[("num_chans", "Z"), ("num_antennas", "Z")], ret="Z"),
     dict(group="07", name="raw_params_fch1", file="setigen/voltage/raw_utils.py", cls=None, func="get_raw_params", what="assign:raw_params['fch1']",
          params=[("center_freq", "Q"), ("chan_bw", "Q"), ("start_chan", "Z"), ("num_chans", "Z")], ret="Q"),
     dict(group="04", name="header_padding", file="setigen/voltage/backend.py", cls="RawVoltageBackend", func="_make_header", what="call:bytearray",
          params=[("header_lines", "Z")], ret="Z"),
     dict(group="20", name="pktstop", file="setigen/voltage/backend.py", cls="RawVoltageBackend", func="_header_populate_configuration", what="assign:header_dict['PKTSTOP']",
          params=[("PKTSTART", "Z"), ("num_blocks", "Z"), ("samples_per_block", "Z")], ret="Z"),
+    dict(group="20", name="get_num_blocks", file="setigen/voltage/backend.py", cls="RawVoltageBackend", func="get_num_blocks", what="return",
+         params=[("obs_length", "Q"), ("chan_bw", "Q"), ("num_antennas", "Z"), ("num_chans", "Z"), ("bytes_per_sample", "Z"), ("block_size", "Z")], ret="Z"),
     dict(group="20", name="samples_per_block", file="setigen/voltage/backend.py", cls="RawVoltageBackend", func="__init__", what="assign:self.samples_per_block",
          params=[("block_size", "Z"), ("num_antennas", "Z"), ("num_chans", "Z"), ("bytes_per_sample", "Z")], ret="Z"),
     dict(group="20", name="bytes_per_sample", file="setigen/voltage/backend.py", cls="RawVoltageBackend", func="__init__", what="assign:self.bytes_per_sample",
@@ -257,7 +267,8 @@ def _chain_error(target):
 
 
 def qlit(x):
-    fr = Fraction(x)
+    # a float literal is read as the decimal number the source text shows (1e-6 is 1/1000000), which is what the exact model means by it
+    fr = Fraction(repr(x)) if isinstance(x, float) else Fraction(x)
     return "(%d # %d)" % (fr.numerator, fr.denominator) if fr.denominator != 1 else "(inject_Z %s)" % zlit(fr.numerator)
 
 
@@ -286,8 +297,20 @@ class Tr(object):
         if not hits and len(tup) == 1:
             k = [src(t) for t in tup[0].targets[0].elts].index(name)
             return tup[0].value.elts[k]
-        if any(isinstance(m, ast.AugAssign) and src(m.target) == name for m in ast.walk(self.fn)):
-            return None
+        augs = [m for m in ast.walk(self.fn) if isinstance(m, ast.AugAssign) and src(m.target) == name]
+        if augs:
+            # only a straight-line top-level chain `v = e; v += f; ...` is understood
+            if not (hits and all(h in self.fn.body for h in hits + augs)):
+                return None
+            expr = None
+            for st in sorted(hits + augs, key=lambda m: m.lineno):
+                if isinstance(st, ast.Assign):
+                    expr = st.value if expr is None else _subst(st.value, name, expr)
+                elif expr is None:
+                    return None
+                else:
+                    expr = ast.BinOp(left=expr, op=st.op, right=st.value)
+            return expr
         if len(hits) == 1:
             if hits[0] in self.fn.body or self._only_in_loops(hits[0]):
                 return hits[0].value
